@@ -4,7 +4,9 @@
     sched.blocks <start y-m-d> <enc>                      -> n|t0,t1,..|kw,kw|kw|...   | err
     sched.rblocks <start y-m-d> <rstep> <rtime> <skiprest 0|1> <enc>
                                                           -> the same for a restarted run | err
-    sched.obs <k> <consts> <start> <enc>                  -> observation of state k | none | err
+    sched.obs <k> <consts> <start> <enc>                  -> observation of state k (`showFull`: wells with
+                                                             order and connection sequence, groups, registries,
+                                                             marker, status-change events) | none | err
     sched.apply <k> <consts> <start> <enc> <apps>         -> observation of state k after applying
                                                              <apps> = n:action:W1/W2,... in order
     sched.inline <consts> <start> <enc> <apps>            -> the inlined schedule re-encoded (model side only)
@@ -279,6 +281,13 @@ def showState (s : State) : String :=
     [s!"A:{"/".intercalate acts}", s!"M:{"/".intercalate marks}", s!"L:{"/".intercalate lists}", s!"T:{"/".intercalate tests}",
      s!"U:{"/".intercalate udqs}", s!"N:{ns}", s!"H:{s.p.whistctl}"])
 
+/-- The wells carrying WELL_STATUS_CHANGE at this report step, in well order. -/
+def showEv (s : State) : String :=
+  s!"X:{"/".intercalate ((names s.p.wells).filter fun w => s.ev.contains w)}"
+
+/-- The full observation record: `showState` plus the status-change events. -/
+def showFull (s : State) : String := showState s ++ ";" ++ showEv s
+
 def showBlocks (bs : List (Block CKw)) : String :=
   let times := ",".intercalate (bs.map fun b => toString (b.start / 1000))
   let kws := bs.map fun b => ",".intercalate (b.kws.map kwName)
@@ -310,7 +319,7 @@ def showAt (r : Except Err (List State)) (k : Nat) : String :=
   | .error .unsupported => "unsupported"
   | .ok ss => match ss[k]? with
     | none => "none"
-    | some s => showState s
+    | some s => showFull s
 
 def handleOp (op : String) (args : List String) : String :=
   match op, args with
